@@ -67,6 +67,7 @@ structure Req where
   requestURI : Str             -- `req.URL.RequestURI()`
   scope : Option Scope         -- `middlewareapi.GetRequestScope(req)` (nil when no scope middleware ran)
   method : Str := []           -- `req.Method`
+  query : Str → List Str := fun _ => []   -- `req.URL.Query()[key]`
   remoteAddr : Str := []       -- `req.RemoteAddr`
 
 /-- reading a field through a pointer: nil is a panic -/
@@ -74,6 +75,17 @@ def derefScope (s : Option Scope) : M Scope :=
   match s with
   | some x => pure x
   | none => throw "invalid memory address or nil pointer dereference"
+
+/-- `sessions.SessionState` as far as the translated functions read it -/
+structure Session where
+  Email : Str := []
+  Groups : List Str := []
+
+/-! ### `map[string]struct{}` as a list of keys (iteration order is unspecified in Go: the translated functions only
+    test membership and emptiness, which do not depend on it) -/
+def setInsert (m : List Str) (k : Str) : List Str := m ++ [k]
+def setHas (m : List Str) (k : Str) : Bool := m.contains k
+def setLen (m : List Str) : Int := m.eraseDups.length
 
 /-- `*url.URL` as far as the translated functions read it (`Hostname()`, `Port()`) -/
 structure URL where
